@@ -167,6 +167,11 @@ section PolyOps
 variable {M R : Type} [DecidableEq M] [Mul M] [One M] [DecidableEq R]
   [Zero R] [One R] [Add R] [Neg R] [Mul R]
 
+/-- The harness keeps products below 600 term pairs.  If the real code deviates from the model, the model's
+state is no longer bounded by that, so the driver refuses products beyond this cap (reply `too-big`, which ends
+the history) instead of running for hours. -/
+def sizeCap : Nat := 20000
+
 def monoEval (pt : List R) (es : List Nat) : Option R :=
   match pt, es with
   | [x], [a] => some (powNat x a)
@@ -178,10 +183,19 @@ def polyOp (mio : MIO M) (rio : RIO R) (st : List (M × R)) (name arg : String) 
     Option (List (M × R) × String) :=
   let upd (s : List (M × R)) := some (s, showTerms mio rio s)
   match name with
-  | "mul" => do let p ← parseTerms mio rio arg; upd (mulAssign st p)
-  | "rmul" => do let p ← parseTerms mio rio arg; upd (mulAssign p st)
-  | "lcmul" => do let p ← parseTerms mio rio arg; upd (mul st p)
-  | "pow" => do let n ← parseNat? arg; if n > 8 then none else upd (powP st n)
+  | "mul" => do
+      let p ← parseTerms mio rio arg
+      if st.length * p.length > sizeCap then some (st, "too-big") else upd (mulAssign st p)
+  | "rmul" => do
+      let p ← parseTerms mio rio arg
+      if st.length * p.length > sizeCap then some (st, "too-big") else upd (mulAssign p st)
+  | "lcmul" => do
+      let p ← parseTerms mio rio arg
+      if st.length * p.length > sizeCap then some (st, "too-big") else upd (mul st p)
+  | "pow" => do
+      let n ← parseNat? arg
+      if n > 8 then none
+      else if st.length ^ n > sizeCap then some (st, "too-big") else upd (powP st n)
   | "lt" =>
       let t := leadTerm mio.cmpGrlex st
       some (st, mio.shw t.1 ++ ":" ++ rio.shw t.2)
@@ -203,7 +217,7 @@ def runHist (step : List (M × R) → String → String → Option (List (M × R
     let (n, a) := splitOp op
     match step st n a with
     | none => none
-    | some (st', r) => runHist step st' ops (r :: acc)
+    | some (st', r) => if r = "too-big" then some ((r :: acc).reverse) else runHist step st' ops (r :: acc)
 
 def histPoly (mio : MIO M) (rio : RIO R) (init : String) (ops : List String) : Option String := do
   let st ← parseTerms mio rio init
@@ -230,7 +244,7 @@ def lcOp (rio : RIO R) (st : List (Int × R)) (name arg : String) : Option (List
       upd (apply (fun x => fromIter [(x, (1 : R)), (x + k, -(1 : R))]) st)
   | "comb" => do                       -- combine(other, |x, y| x + y)
       let p ← parseTerms genIO rio arg
-      upd (combine (fun x y => x + y) st p)
+      if st.length * p.length > 20000 then some (st, "too-big") else upd (combine (fun x y => x + y) st p)
   | _ => commonOp genIO rio st name arg
 
 def histLc (rio : RIO R) (init : String) (ops : List String) : Option String := do
